@@ -38,7 +38,7 @@ func (fr *frame) call(in ssa.Instruction, c *ssa.CallCommon, st *State, reach st
 			return m(fr, in, c, args, st, reach)
 		}
 		if ct := fc.e.specs.Funcs[key]; ct != nil {
-			return fr.applyContract(ct, nil, c.Method.Type().(*types.Signature), args, st, reach, pos)
+			return fr.applyContract(ct, nil, c.Method.Type().(*types.Signature), args, append([]ssa.Value{c.Value}, c.Args...), in, st, reach, pos)
 		}
 		return fr.unknownCall(key, c.Signature(), st, reach, pos)
 	}
@@ -82,7 +82,7 @@ func (fr *frame) staticCall(f *ssa.Function, bindings []Val, in ssa.Instruction,
 				}
 			}
 		}
-		return fr.applyContract(ct, f, f.Signature, args, st, reach, pos)
+		return fr.applyContract(ct, f, f.Signature, args, c.Args, in, st, reach, pos)
 	}
 	if f.Blocks != nil && (f.Parent() != nil || isTrivial(f)) {
 		if f.Parent() == nil {
@@ -199,7 +199,13 @@ func (e *Engine) bindIfaceParams(ct *FuncContract, env *Env) {
 }
 
 // applyContract: assert pre, havoc modifies, assume post.
-func (fr *frame) applyContract(ct *FuncContract, f *ssa.Function, sig *types.Signature, args []Val, st *State, reach string, pos token.Pos) Val {
+func (fr *frame) applyContract(ct *FuncContract, f *ssa.Function, sig *types.Signature, args []Val, argVals []ssa.Value, in ssa.Instruction, st *State, reach string, pos token.Pos) Val {
+	argT := func(i int, t types.Type) types.Type {
+		if i < len(argVals) && argVals[i] != nil && isMapType(t) {
+			return withReg(t, fr.fc.e.regionOf(argVals[i]))
+		}
+		return t
+	}
 	fc := fr.fc
 	fc.callees[ct.Key] = true
 	if ct.Trusted {
@@ -237,7 +243,7 @@ func (fr *frame) applyContract(ct *FuncContract, f *ssa.Function, sig *types.Sig
 	if f != nil {
 		for i, p := range f.Params {
 			if i < len(args) {
-				env.vars[p.Name()] = CVal{toTerm(args[i], p.Type()), p.Type()}
+				env.vars[p.Name()] = CVal{toTerm(args[i], p.Type()), argT(i, p.Type())}
 			}
 		}
 	} else {
@@ -249,7 +255,7 @@ func (fr *frame) applyContract(ct *FuncContract, f *ssa.Function, sig *types.Sig
 		}
 		for i := 0; i < sig.Params().Len(); i++ {
 			p := sig.Params().At(i)
-			env.vars[p.Name()] = CVal{toTerm(args[i+k], p.Type()), p.Type()}
+			env.vars[p.Name()] = CVal{toTerm(args[i+k], p.Type()), argT(i+k, p.Type())}
 		}
 	}
 	cname := sanitizeName(shortKey(ct.Key))
@@ -293,6 +299,17 @@ func (fr *frame) applyContract(ct *FuncContract, f *ssa.Function, sig *types.Sig
 				}
 				fc.heapGet(st, l.arr, l.sort)
 				st.heap[l.arr] = fc.fresh(l.arr+"_m", l.sort)
+				continue
+			}
+			if l.pred != "" {
+				// a set of references: fresh array, unchanged outside the set
+				a := fc.heapGet(st, l.arr, l.sort)
+				if fc.c != nil && !fc.modEvery && !fc.modAll[l.arr] {
+					frameGoals = append(frameGoals, fmt.Sprintf("(forall ((r Int)) (=> %s %s))", strings.ReplaceAll(l.pred, "%r", "r"), fc.allowed(fr.old, l.arr, "r")))
+				}
+				nw := fc.fresh(l.arr+"_m", a.Sort)
+				fc.fact(fmt.Sprintf("(forall ((r Int)) (! (=> (not %s) (= (select %s r) (select %s r))) :pattern ((select %s r))))", strings.ReplaceAll(l.pred, "%r", "r"), nw.S, a.S, nw.S))
+				st.heap[l.arr] = nw
 				continue
 			}
 			if g := fr.frameGoal(l.arr, l.ref); g != "" {
@@ -342,7 +359,15 @@ func (fr *frame) applyContract(ct *FuncContract, f *ssa.Function, sig *types.Sig
 		rvals = []Val{r}
 	}
 	for i := 0; i < sig.Results().Len() && i < len(rvals); i++ {
-		cv := CVal{rvals[i].(Term), sig.Results().At(i).Type()}
+		rt := sig.Results().At(i).Type()
+		if call, ok := in.(*ssa.Call); ok && isMapType(rt) {
+			if sig.Results().Len() == 1 {
+				rt = withReg(rt, fc.e.regionOf(call))
+			} else {
+				rt = withReg(rt, fmt.Sprintf("R%d", fc.e.reg.find(fc.e.reg.callResult(call, i)).id))
+			}
+		}
+		cv := CVal{rvals[i].(Term), rt}
 		env.vars["result"+strconv.Itoa(i)] = cv
 		if n := sig.Results().At(i).Name(); n != "" && n != "_" {
 			env.vars[n] = cv
@@ -553,7 +578,7 @@ func (fr *frame) dynCall(fv Term, c *ssa.CallCommon, args []Val, st *State, reac
 	for _, f := range cands {
 		cond := and(reach, eq(fv.S, strconv.Itoa(fc.e.funcTag(fnKey(f)))))
 		s2 := pre.clone()
-		v := fr.applyContract(fc.e.specs.Funcs[fnKey(f)], f, f.Signature, args, s2, cond, pos)
+		v := fr.applyContract(fc.e.specs.Funcs[fnKey(f)], f, f.Signature, args, c.Args, nil, s2, cond, pos)
 		rs = append(rs, res{cond, s2, v})
 	}
 	names := map[string]string{}
@@ -630,14 +655,13 @@ func (fr *frame) builtin(b *ssa.Builtin, in ssa.Instruction, c *ssa.CallCommon, 
 			case x.Sort == SInt:
 				if mt, ok := c.Args[0].Type().Underlying().(*types.Map); ok {
 					// cardinality: uninterpreted over the domain set, with emptiness facts
-					dn, _, ks, _ := fc.mapArrs(mt)
+					dn, _, ks, _ := fc.mapArrs(mt, fc.e.regionOf(c.Args[0]))
 					dom := fc.heapGet(st, dn, arr(SInt, arr(ks, SBool)))
 					fname := "card$" + sanitize(ks)
 					fc.declareFun(fname, []string{arr(ks, SBool)}, SInt)
 					d := sel(dom.S, x.S)
 					v := fc.define("maplen", Term{"(" + fname + " " + d + ")", SInt})
 					fc.fact(fmt.Sprintf("(<= 0 %s)", v.S))
-					fc.fact(fmt.Sprintf("(forall ((k %s)) (not (select (select %s 0) k)))", ks, dom.S))
 					fc.fact(fmt.Sprintf("(= (= %s 0) (forall ((k %s)) (! (not (select %s k)) :pattern ((select %s k)))))", v.S, ks, d, d))
 					return v
 				}
@@ -675,7 +699,11 @@ func (fr *frame) builtin(b *ssa.Builtin, in ssa.Instruction, c *ssa.CallCommon, 
 				cur := s
 				for _, e := range y.Elems {
 					et := e.(Term)
+					prev := cur
 					cur = fc.define("app", Term{fmt.Sprintf("(mkslc (store (sarr %s) (+ (soff %s) (slen %s)) %s) (soff %s) (+ (slen %s) 1))", cur.S, cur.S, cur.S, et.S, cur.S, cur.S), s.Sort})
+					// element view of the append (triggers on the old slice's elements as well)
+					fc.fact(fmt.Sprintf("(forall ((j Int)) (! (=> (and (<= 0 j) (< j (slen %s))) (= %s %s)) :pattern (%s) :pattern (%s)))", prev.S, fc.slcAt(cur, "j").S, fc.slcAt(prev, "j").S, fc.slcAt(cur, "j").S, fc.slcAt(prev, "j").S))
+					fc.fact(fmt.Sprintf("(= %s %s)", fc.slcAt(cur, "(slen "+prev.S+")").S, et.S))
 				}
 				return cur
 			case Term:
@@ -693,7 +721,7 @@ func (fr *frame) builtin(b *ssa.Builtin, in ssa.Instruction, c *ssa.CallCommon, 
 		m := args[0].(Term)
 		k := args[1].(Term)
 		mt := c.Args[0].Type().Underlying().(*types.Map)
-		dn, _, ks, _ := fc.mapArrs(mt)
+		dn, _, ks, _ := fc.mapArrs(mt, fc.e.regionOf(c.Args[0]))
 		dom := fc.heapGet(st, dn, arr(SInt, arr(ks, SBool)))
 		// delete on a nil map is a no-op
 		fr.frameCheckOrNil(st, dn, m, reach, pos)
@@ -727,11 +755,6 @@ func (fr *frame) frameCheckOrNil(st *State, arrName string, ref Term, reach stri
 	if fc.c == nil || fc.modEvery || fc.modAll[arrName] {
 		return
 	}
-	al := fc.heapGet(fr.old, "Alloc", arr(SInt, SBool))
-	alts := []string{eq(ref.S, "0"), not(sel(al.S, ref.S))}
-	for _, m := range fc.modset[arrName] {
-		alts = append(alts, eq(ref.S, m.S))
-	}
-	o := fc.oblig("frame", "frame."+arrName, or(alts...), reach, pos, nil)
+	o := fc.oblig("frame", "frame."+arrName, or(eq(ref.S, "0"), fc.allowed(fr.old, arrName, ref.S)), reach, pos, nil)
 	o.Src = "write to " + arrName + " must be covered by the modifies clause"
 }
